@@ -247,4 +247,95 @@ theorem conditionsHold_of_contains (p c : Conditions) (a : Auth) (now : Nat) (h 
     · exact absurd c5 hcne
     · exact hall _ c5
 
+/-! ## containment is transitive (attenuation composes along a chain) -/
+
+theorem narrows_trans (p q r : List String) (h1 : narrows p q = true) (h2 : narrows q r = true) : narrows p r = true := by
+  unfold narrows at *
+  cases hp : p.isEmpty with
+  | true => simp
+  | false =>
+    simp [hp] at h1
+    obtain ⟨hqne, hqp⟩ := h1
+    have hqe : q.isEmpty = false := by simpa using hqne
+    simp [hqe] at h2
+    obtain ⟨hrne, hrq⟩ := h2
+    simp
+    exact ⟨hrne, fun x hx => hqp x (hrq x hx)⟩
+
+/-- Two non-empty lists with nothing in common: neither narrows the other. -/
+theorem narrows_disjoint (p q : List String) (hp : p ≠ []) (hq : q ≠ []) (hd : ∀ x ∈ q, x ∉ p) : narrows p q = false := by
+  unfold narrows
+  have hpe : p.isEmpty = false := by simpa using hp
+  cases q with
+  | nil => exact absurd rfl hq
+  | cons x xs =>
+    have hx : x ∉ p := hd x (by simp)
+    simp [hpe]
+    intro h
+    exact absurd h hx
+
+theorem withinCeiling_trans (rank : String → Nat) (p q r : String)
+    (h1 : withinCeiling rank p q = true) (h2 : withinCeiling rank q r = true) : withinCeiling rank p r = true := by
+  unfold withinCeiling at *
+  by_cases hp : p = ""
+  · simp [hp]
+  · simp [hp] at h1
+    obtain ⟨hq, hqp⟩ := h1
+    simp [hq] at h2
+    obtain ⟨hr, hrq⟩ := h2
+    simp [hp, hr]
+    omega
+
+theorem Scope.contains_trans (p q r : Scope) (h1 : p.contains q = true) (h2 : q.contains r = true) : p.contains r = true := by
+  unfold Scope.contains at *
+  simp only [Bool.and_eq_true] at *
+  obtain ⟨⟨⟨a1, a2⟩, a3⟩, a4⟩ := h1
+  obtain ⟨⟨⟨b1, b2⟩, b3⟩, b4⟩ := h2
+  exact ⟨⟨⟨narrows_trans _ _ _ a1 b1, narrows_trans _ _ _ a2 b2⟩, narrows_trans _ _ _ a3 b3⟩, narrows_trans _ _ _ a4 b4⟩
+
+theorem Constraints.contains_trans (p q r : Constraints) (h1 : p.contains q = true) (h2 : q.contains r = true) :
+    p.contains r = true := by
+  unfold Constraints.contains at *
+  simp only [Bool.and_eq_true] at *
+  obtain ⟨⟨⟨⟨a1, a2⟩, a3⟩, a4⟩, a5⟩ := h1
+  obtain ⟨⟨⟨⟨b1, b2⟩, b3⟩, b4⟩, b5⟩ := h2
+  refine ⟨⟨⟨⟨narrows_trans _ _ _ a1 b1, ?_⟩, withinCeiling_trans _ _ _ _ a3 b3⟩, withinCeiling_trans _ _ _ _ a4 b4⟩, ?_⟩
+  · cases hp : p.maxResults with
+    | none => rfl
+    | some pm =>
+      simp only [hp] at a2
+      cases hq : q.maxResults with
+      | none => simp [hq] at a2
+      | some qm =>
+        simp only [hq] at a2 b2
+        cases hr : r.maxResults with
+        | none => simp [hr] at b2
+        | some rm =>
+          simp only [hr] at b2
+          simp at a2 b2 ⊢
+          omega
+  · cases hpe : p.mayExport <;> cases hqe : q.mayExport <;> cases hre : r.mayExport <;> simp_all
+
+theorem Conditions.contains_trans (p q r : Conditions) (h1 : p.contains q = true) (h2 : q.contains r = true) :
+    p.contains r = true := by
+  unfold Conditions.contains at *
+  simp only [Bool.and_eq_true, decide_eq_true_eq] at *
+  obtain ⟨⟨⟨⟨a1, a2⟩, a3⟩, a4⟩, a5⟩ := h1
+  obtain ⟨⟨⟨⟨b1, b2⟩, b3⟩, b4⟩, b5⟩ := h2
+  refine ⟨⟨⟨⟨narrows_trans _ _ _ a1 b1, by omega⟩, by omega⟩, ?_⟩, ?_⟩
+  · unfold atLeast at *
+    simp at a4 b4 ⊢
+    rcases a4 with a4 | a4
+    · exact Or.inl a4
+    · rcases b4 with b4 | b4
+      · exact absurd b4 a4.1
+      · exact Or.inr ⟨b4.1, by omega⟩
+  · unfold atMost at *
+    simp at a5 b5 ⊢
+    rcases a5 with a5 | a5
+    · exact Or.inl a5
+    · rcases b5 with b5 | b5
+      · exact absurd b5 a5.1
+      · exact Or.inr ⟨b5.1, by omega⟩
+
 end AndaVerif.Authz
